@@ -128,6 +128,43 @@ type callEvent struct {
 }
 
 func (x *Exec) callFn(callee *ssa.Function, bind []Value, args []Value, st *State, pc *Term) Value {
+	if x.inInit && callee.Name() == "init" && callee.Pkg != nil && len(args) == 0 && !x.initGuard {
+		// the initialiser of an imported package.  If it lies outside the
+		// verifier's subset its variables are arbitrary from here on and every
+		// symbolic run that reads one of them is marked as unable to prove (it
+		// can still refute with a replay); runs that never touch the package
+		// are not affected.
+		nh, no := len(x.hyps), len(x.obligs)
+		var failed string
+		func() {
+			defer func() {
+				if r := recover(); r != nil {
+					if u, ok := r.(Unsupported); ok {
+						failed = u.Msg
+						return
+					}
+					panic(r)
+				}
+			}()
+			x.initGuard = true
+			defer func() { x.initGuard = false }()
+			x.callFn(callee, bind, args, st, pc)
+		}()
+		if failed != "" {
+			x.hyps, x.obligs = x.hyps[:nh], x.obligs[:no]
+			if x.poisoned == nil {
+				x.poisoned = map[*ssa.Package]string{}
+			}
+			x.poisoned[callee.Pkg] = failed
+			for g, o := range x.globals {
+				if g.Pkg == callee.Pkg {
+					et := g.Type().Underlying().(*types.Pointer).Elem()
+					st.h[o] = x.symV(et, "global_"+g.Name(), st.h)
+				}
+			}
+		}
+		return nil
+	}
 	if c := x.ld.contractFor(callee); c != nil && c.Counts != "" && x.gobj != nil && x.inSpec == 0 {
 		n := x.ghostGet(st, c.Counts)
 		if n.S.K == 'b' {
@@ -193,7 +230,14 @@ func (x *Exec) callFn(callee *ssa.Function, bind []Value, args []Value, st *Stat
 			}
 		}
 	}
-	if callee.Blocks == nil || callee.Pkg == nil || !strings.HasPrefix(callee.Pkg.Pkg.Path(), modPath) {
+	inModule := callee.Pkg != nil && strings.HasPrefix(callee.Pkg.Pkg.Path(), modPath)
+	if callee.Pkg == nil && callee.Synthetic != "" && callee.Blocks != nil {
+		// bound-method / thunk wrapper generated by go/ssa: executed like any body
+		if o := callee.Object(); o != nil && o.Pkg() != nil && strings.HasPrefix(o.Pkg().Path(), modPath) {
+			inModule = true
+		}
+	}
+	if callee.Blocks == nil || !inModule {
 		unsupported("external function without stub: %s", fullName(callee))
 	}
 	if x.inSpec == 0 {
@@ -662,6 +706,28 @@ func (x *Exec) builtin(name string, call *ssa.CallCommon, args []Value, st *Stat
 			delete(x.pendingObjs, o)
 		}
 		return r
+	case "clear":
+		switch m := args[0].(type) {
+		case *MapV:
+			if m.Obj == nil {
+				return nil
+			}
+			mv := st.h[m.Obj].(*StructV)
+			st.h[m.Obj] = &StructV{F: []Value{b.ConstArr(mv.F[0].(*Term).S, b.False()), mv.F[1]}}
+			return nil
+		case *SliceV:
+			if m.Obj == nil {
+				return nil
+			}
+			arr := x.readArr(st, m.Obj, m.Path)
+			zero := b.ConstArr(arr.S, b.Const(arr.S.E.W, 0))
+			if arr.S.E.K == 'b' {
+				zero = b.ConstArr(arr.S, b.False())
+			}
+			res := x.copyArr(arr, m.Off, m.Len, m.Len, zero, b.Const(64, 0))
+			st.h[m.Obj] = x.setPath(st.h[m.Obj], m.Path, res)
+			return nil
+		}
 	case "delete":
 		m := args[0].(*MapV)
 		if m.Obj == nil {
@@ -924,7 +990,8 @@ func (x *Exec) stub(callee *ssa.Function, args []Value, st *State, pc *Term) (Va
 	}
 	// effect-free helpers of the module that only log (warnf, invalidCode):
 	// skipped as a unit.  Assumption: package log / fmt do not touch modelled state.
-	if callee.Blocks != nil && callee.Signature.Results().Len() == 0 && x.ld.logOnly(callee) {
+	_, countsWarns := x.ld.ghostField2(x, "Warns") // (a package whose ghost counts logger calls: its log-only helpers are executed)
+	if callee.Blocks != nil && callee.Signature.Results().Len() == 0 && !countsWarns && x.ld.logOnly(callee) {
 		x.usedStub("log-only:" + fnKey(callee))
 		x.logCalls++
 		return nil, true
